@@ -7,7 +7,8 @@ DG_STATE = [("packets_send", "Z")]
 DG_READS = [("self.initial_delay", "initial_delay", "Q"),
             # finish defaults to float("inf"), which is no rational: the outcome of the loop test is the observation (the
             # model's before_finish); any other spelling of the test is Unsupported
-            ("env.now < self.finish", "before_finish", "bool"),
+            ("env.now < self.finish", "before_finish", "bool"), ("self.finish > env.now", "before_finish", "bool"),
+            ("self.env.now < self.finish", "before_finish", "bool"),
             ("env.now", "now", "Q"),
             ("self.rec_flow", "rec_flow", "bool"), ("self.debug", "debug", "bool"), ("self.out", "out_set", "optobj")]
 DG_DRAWS = [("self.arrival_dist()", "a", "Q", "FxArrivalDist"),      # consumed inside `yield env.timeout(self.arrival_dist())`
